@@ -192,12 +192,15 @@ theorem finishAll_sim : âˆ€ (es : List Entry) (a b : St), Sim cfg sc qm m0 a b â
 theorem firstExc_none {es : List Entry} (h : âˆ€ e âˆˆ es, e.exc? = none) : firstExc es = none := by
   have h1 : (es.filter fun e => !e.pending).findSome? Entry.exc? = none :=
     List.findSome?_eq_none_iff.mpr fun e he => h e (List.mem_filter.mp he).1
-  have h2 : (es.filter fun e => e.pending).findSome? Entry.exc? = none :=
+  have h2 : (es.filter fun e => e.pending && !e.late).findSome? Entry.exc? = none :=
     List.findSome?_eq_none_iff.mpr fun e he => h e (List.mem_filter.mp he).1
-  simp [firstExc, h1, h2]
+  have h3 : (es.filter fun e => e.pending && e.late).findSome? Entry.exc? = none :=
+    List.findSome?_eq_none_iff.mpr fun e he => h e (List.mem_filter.mp he).1
+  simp [firstExc, h1, h2, h3]
 
 theorem firstExc_single (e : Entry) : firstExc [e] = e.exc? := by
-  cases hp : e.pending <;> cases he : e.exc? <;> simp [firstExc, List.filter, hp, List.findSome?, he]
+  cases hp : e.pending <;> cases hl : e.late <;> cases he : e.exc? <;>
+    simp [firstExc, List.filter, hp, hl, List.findSome?, he]
 
 theorem gather_nil (sub : Sub) (kd : Kinds) (x : Ctx) (a : St) : gather sub sc kd x [] a = .ok [] a := by
   simp [gather, startAll, finishAll, firstExc]
